@@ -389,6 +389,57 @@ def gen_common_noncontrib(rng):
     return out
 
 
+UNREG_EXT = "x-verif-unreg-ext"
+
+
+def gen_json_dict(rng, depth=2):
+    """a dictionary as only an unregistered (custom) extension can hold it: arbitrary Unicode member names -- keys
+    that order differently in UTF-16 and in code point order, other non-ASCII keys, escapes -- nested values"""
+    items = []
+    n = rng.choice([1, 2, 2, 3, 4, 5])
+    if rng.random() < 0.5:
+        # one name above U+FFFF next to one in U+E000..U+FFFF, sharing a (possibly empty) prefix
+        pre = rng.choice(["", "", "a", "\uffff", "k_"])
+        items.append((pre + rng.choice(["\U00010000", "\U0001F600", "\U0010FFFF", "\U0001D306"]), I(rng.randrange(100))))
+        items.append((pre + rng.choice(["\ue000", "\uffff", "\ufb33", "\uff61", "\uffe0"]), gen_text(rng)))
+    for _ in range(n):
+        k = c16.gen_key(rng)
+        r = rng.random()
+        if depth > 0 and r < 0.25:
+            v = gen_json_dict(rng, depth - 1)
+        elif r < 0.4:
+            v = A([rng.choice([gen_text(rng), I(rng.randrange(-5, 1000)), maybe(rng)]) for _ in range(rng.choice([1, 2, 3]))])
+        elif r < 0.55:
+            v = I(rng.randrange(-10 ** 6, 10 ** 6))
+        elif r < 0.7:
+            v = F(gen_float(rng))
+        elif r < 0.8:
+            v = maybe(rng)
+        else:
+            v = gen_text(rng)
+        items.append((k, v))
+    rng.shuffle(items)
+    return O(items)
+
+
+def has_unreg(v):
+    if isinstance(v, dict) and "o" in v:
+        return any(k == UNREG_EXT or has_unreg(x) for k, x in v["o"])
+    if isinstance(v, dict) and "a" in v:
+        return any(has_unreg(x) for x in v["a"])
+    return False
+
+
+def with_unreg(rng, exts, p=0.35):
+    """add an unregistered extension (kept as a plain dict under allow_custom) to an `extensions` value"""
+    if rng.random() >= p:
+        return exts
+    items = list(exts["o"]) if exts else []
+    items.append([UNREG_EXT, gen_json_dict(rng)])
+    rng.shuffle(items)
+    return {"o": items}
+
+
 def file_ext(rng):
     exts = []
     if maybe(rng, 0.4):
@@ -458,7 +509,7 @@ def file_ext(rng):
             e.append(("comment", gen_text(rng)))
         exts.append(("archive-ext", O(e)))
     rng.shuffle(exts)
-    return O(exts) if exts else None
+    return with_unreg(rng, O(exts) if exts else None)
 
 
 def nt_ext(rng):
@@ -491,7 +542,7 @@ def nt_ext(rng):
         e = [("src_flags_hex", hexs(rng, 2)), ("dst_flags_hex", hexs(rng, 2))]
         exts.append(("tcp-ext", O(e[:rng.choice([1, 2])])))
     rng.shuffle(exts)
-    return O(exts) if exts else None
+    return with_unreg(rng, O(exts) if exts else None)
 
 
 def build(rng, ty):
@@ -789,6 +840,7 @@ def gen_groups(rng, tier, start_index=0):
 
     def mk(ty, items, mode, custom=None, allow_custom=False, raw_model=False):
         counter[0] += 1
+        allow_custom = allow_custom or any(k == "extensions" and has_unreg(v) for k, v in items)
         c = {"n": counter[0], "type": ty, "mode": mode, "props": [[k, v] for k, v in items], "allow_custom": allow_custom,
              "custom": custom}
         if raw_model:
@@ -867,6 +919,12 @@ def gen_groups(rng, tier, start_index=0):
         items = [(nm, gen_custom_value(rng, kd)) for nm, kd in present]
         if not items:
             items = [(props[0][0], gen_custom_value(rng, props[0][1]))]
+        if maybe(rng, 0.3):
+            # every custom observable has the common `extensions` property; it may be listed as contributing
+            items.append(("extensions", O([(UNREG_EXT, gen_json_dict(rng))])))
+            if given is not None and maybe(rng, 0.8):
+                contrib = contrib + ["extensions"]
+                given = contrib
         g = []
         for rel, order in (("base", items), ("same", [(k, shuffle_view(rng, v)) for k, v in rng.sample(items, len(items))])):
             counter[0] += 1
@@ -1076,6 +1134,8 @@ def check(run):
             run.broken.append(Broken("translator", "tr_scoid", {"error": "%s: %s" % (type(e).__name__, str(e)[-800:])}))
         res = common.build_props("Props/C06.v", extra_targets=["Model/ScoIdRun.vo"])
         run.add_build(res, "make -C coq Props/C06.vo Props/C06Src.vo (coqc 8.16.1, full .vo) + Print Assumptions per theorem")
+        # the id is specified through the RFC 8785 text: C06 rests on what the source says about the canonicalizer
+        c16.source_step(run)
         res2 = common.build_props("Props/C06Src.v")
         run.add_build(res2, "make -C coq Props/C06.vo Props/C06Src.vo (coqc 8.16.1, full .vo) + Print Assumptions per theorem")
     model_ok = meta is not None and os.path.exists(os.path.join(common.COQ, "Model", "ScoIdRun.vo"))
